@@ -253,12 +253,44 @@ Variable I : interp.
 Variable swap : list tuple -> list tuple -> bool.
 
 Lemma rows_default_value inits : rows (default_value inits) = assign_inits inits.
-Proof. unfold default_value. destruct inits; reflexivity. Qed.
+Proof. unfold default_value, default_value_when. destruct inits; reflexivity. Qed.
 
-(* ascent_run!: assigning the initialisers, indexing once and running the SCCs is run() on that input *)
+(* after the assignments alone the precondition of the SCC code does NOT hold (unless nothing was assigned) ... *)
+Lemma assigned_not_indexed inits : assign_inits inits <> [] -> ~ indexed (assigned inits).
+Proof. intros Hne Hi. unfold indexed, assigned in Hi. cbn in Hi. apply Hne. symmetry. exact Hi. Qed.
+
+(* ... the index build establishes it ... *)
+Lemma update_indices_indexed st : indexed (update_indices st).
+Proof. reflexivity. Qed.
+
+(* ... and the block as generated (index build iff there is an initialiser) always reaches the SCCs with it *)
+Lemma index_build_establishes_precondition inits : indexed (default_value inits) /\ rows (default_value inits) = assign_inits inits.
+Proof. split; [|apply rows_default_value]. unfold indexed, default_value, default_value_when. destruct inits; reflexivity. Qed.
+
+(* from an indexed value, entering the SCCs directly is run() (whose own index build changes nothing) *)
+Lemma run_sccs_indexed fuel pl st : indexed st -> run_sccs I swap fuel pl st = run_plan I swap fuel pl st.
+Proof.
+  intros H. unfold run_plan, update_indices. destruct st as [r s]. unfold indexed in H. cbn [rows stored] in *. subst s. reflexivity.
+Qed.
+
+(* ascent_run!: assigning the initialisers, indexing once and running the SCCs is run() on that input.  The proof goes
+   through the precondition: ascent_run_code has no second index build *)
 Theorem init_is_input fuel pl inits :
   ascent_run_code I swap fuel pl inits = run_plan I swap fuel pl (init_state (assign_inits inits)).
-Proof. unfold ascent_run_code, default_value, run_plan. destruct inits; reflexivity. Qed.
+Proof.
+  unfold ascent_run_code. destruct (index_build_establishes_precondition inits) as [Hi Hr].
+  rewrite (run_sccs_indexed fuel pl _ Hi). rewrite run_plan_rows_only, Hr. reflexivity.
+Qed.
+
+(* the block with the index build as a switch: it is run() on the initialisers' tuples when the statement is generated,
+   or when there is nothing to index *)
+Theorem run_block_when_correct emit fuel pl inits :
+  emit = true \/ assign_inits inits = [] ->
+  run_block_when I swap emit fuel pl inits = run_plan I swap fuel pl (init_state (assign_inits inits)).
+Proof.
+  intros [->|E]; [reflexivity|]. destruct emit; [reflexivity|].
+  unfold run_block_when, default_value_when, assigned, run_plan, update_indices, init_state. cbn [rows stored]. rewrite E. reflexivity.
+Qed.
 
 (* ascent!: Default::default() evaluates the initialisers; run() indexes the rows again from scratch *)
 Theorem default_then_run_is_input fuel pl inits :
@@ -408,6 +440,50 @@ Theorem timing_flags_inert measure segment fuel pl st tm :
   option_map fst (run_plan_timed I swap now measure segment fuel pl st tm) = run_plan I swap fuel pl st.
 Proof. unfold run_plan_timed, run_plan. apply run_sccs_timed_proj. Qed.
 End Run.
+
+(* ================================================================== 3b. the index build cannot be left out *)
+
+(* relation 0 = input, 1 = seen (write-only: no rule body reads it);   input(1);   seen(x) <-- input(x);
+   run block: `_self.seen = vec![(1,)];`  — the only initialised relation is read by no rule *)
+Definition wo_plan : plan :=
+  [{| s_vars := [{| v_rule := 0%nat; v_heads := [(0%nat, [TConst 1])]; v_items := []; v_sj := None; v_reord := false |}];
+      s_dyn := [0%nat]; s_loop := false |};
+   {| s_vars := [{| v_rule := 1%nat; v_heads := [(1%nat, [TVar 0%nat])]; v_items := [PClause 0%nat [TVar 0%nat] [] [] VTotal]; v_sj := None; v_reord := false |}];
+      s_dyn := [1%nat]; s_loop := false |}].
+Definition wo_inits : list (rel * list tuple) := [(1%nat, [[1]])].
+
+(* with the index build: seen keeps its single row.  Without it the head update does not find the initial row and pushes
+   the derived (1,) a second time *)
+Lemma wo_example :
+  option_map rows (run_block_when std_interp std_swap true 5 wo_plan wo_inits) = Some [(1%nat, [1]); (0%nat, [1])]
+  /\ option_map rows (run_block_when std_interp std_swap false 5 wo_plan wo_inits) = Some [(1%nat, [1]); (0%nat, [1]); (1%nat, [1])]
+  /\ option_map rows (ascent_run_code std_interp std_swap 5 wo_plan wo_inits) = Some [(1%nat, [1]); (0%nat, [1])].
+Proof. vm_compute. repeat split. Qed.
+
+(* NECESSITY: no run block that omits the index build satisfies the statement of init_is_input for all programs *)
+Theorem index_build_needed (emit : bool) :
+  (forall fuel pl inits, run_block_when std_interp std_swap emit fuel pl inits
+                         = run_plan std_interp std_swap fuel pl (init_state (assign_inits inits))) ->
+  emit = true.
+Proof.
+  destruct emit; intros H; [reflexivity|]. specialize (H 5%nat wo_plan wo_inits). vm_compute in H. discriminate H.
+Qed.
+
+(* the narrower condition "generate the index build only when some rule body reads an initialised relation" is refuted:
+   on a program whose initialised relations are write-only it omits the build, the result is not run() on the initialisers'
+   tuples, and a row is held twice *)
+Lemma index_build_only_if_read_refuted :
+  exists pl inits st,
+    some_initialised_read pl inits = false
+    /\ run_block_when std_interp std_swap (some_initialised_read pl inits) 5 pl inits = Some st
+    /\ ~ NoDup (rows st)
+    /\ run_plan std_interp std_swap 5 pl (init_state (assign_inits inits)) <> Some st
+    /\ ascent_run_code std_interp std_swap 5 pl inits = run_plan std_interp std_swap 5 pl (init_state (assign_inits inits)).
+Proof.
+  exists wo_plan, wo_inits. eexists. split; [reflexivity|]. split; [vm_compute; reflexivity|].
+  split; [|split; [vm_compute; discriminate | apply init_is_input]].
+  intros H. inversion H as [|x l Hnotin _]. apply Hnotin. right. left. reflexivity.
+Qed.
 
 (* ================================================================== examples *)
 
